@@ -341,6 +341,11 @@ def compare(c, impl, model):
 
 def oracle(c, impl, model):
     v = []
+    if impl.has("concurrent_equal") and impl.get("concurrent_equal") != 1:
+        # "for every unit quaternion q and rotation vector r": the value of a call does not depend on what other threads
+        # compute at the same time (two filters in one process)
+        v.append(("C18:%s:concurrent-callers-interfere" % c.kind, "a call made while other threads call the same utilities on other data "
+                  "returned a result that differs from the same call made alone (hidden shared state)"))
     if c.kind == "conv":
         q, r = c.get("q"), c.get("r")
         lq, lnq, elq, er, ler = (impl.get(n) for n in ("log_q", "log_negq", "exp_log_q", "exp_r", "log_exp_r"))
